@@ -141,11 +141,14 @@ def _closure_body(cad, b, term):
     return None
 
 
-def rule_units_and_guard(ctx, rep):
+def rule_units_and_guard(ctx, rep, units=True):
     """R2 unit (as_millis for timers, as_nanos for histograms, same accessor in guard and conversion) and
     R3 exact narrowing guard: x > u64::MAX <=> rejected."""
     cad = ctx.cad
     n_casts = 0
+    real = rep
+    if not units:
+        rep = _Filter(real, drop=('R2',))
     for b in value_impls(cad):
         sty = b.impl_self
         if 'Duration' not in sty:
@@ -306,3 +309,29 @@ def _guard_exact(T, b, okb, x):
                 return False, 'the rejected edge does not return an InvalidInput error'
             last = why
     return False, (last if gs else 'the truncating cast is not guarded at all')
+
+
+class _Filter:
+    """Report proxy that drops obligations of some rules (used when another property borrows part of a rule set)."""
+
+    def __init__(self, rep, drop):
+        self._r = rep
+        self._drop = drop
+
+    def ob(self, rule, *a, **k):
+        if rule in self._drop:
+            return True
+        return self._r.ob(rule, *a, **k)
+
+    def bad(self, rule, *a, **k):
+        if rule in self._drop:
+            return False
+        return self._r.bad(rule, *a, **k)
+
+    def unknown(self, rule, *a, **k):
+        if rule in self._drop:
+            return False
+        return self._r.unknown(rule, *a, **k)
+
+    def __getattr__(self, n):
+        return getattr(self._r, n)
